@@ -83,6 +83,7 @@ pub fn absorb(run: &mut Run, sw: Sweep, family: &str) {
     run.add("evaluations", sw.calls);
     run.add("distinct_nontrivial", sw.distinct_outcomes);
     run.add("reported_lines_checked", sw.reported_lines);
+    run.add("back_to_back_equal_length_pairs", sw.back_to_back_pairs);
     let mut per = run.cov.get("per_detector").cloned().unwrap_or(json!({}));
     for (name, must, may, flagged) in &sw.stats {
         let key = format!("{}@{}", name, family);
@@ -240,6 +241,45 @@ fn member_descriptions() -> Vec<(String, Box<dyn Fn(usize) -> Frag + Sync + Send
                     let label = format!("fn:{}:{}:{}:{}", vis, mutab, body, und);
                     v.push((label, Box::new(move |i| func_member("function", vis, mutab, body, format!("{}f{}", if und { "_" } else { "" }, i)))));
                 }
+            }
+        }
+    }
+    // attribute order variants: mutability / virtual / override before the visibility keyword
+    for vis in ["public", "external", "internal", "private"] {
+        for pre in [vec!["view"], vec!["pure"], vec!["payable"], vec!["virtual"], vec!["virtual", "pure"], vec!["override"], vec!["override", "(", "Base", ")", "view"]] {
+            for und in [false, true] {
+                let pre2 = pre.clone();
+                v.push((
+                    format!("fn-order:{}:{}:{}", pre.join("+"), vis, und),
+                    Box::new(move |i| {
+                        let mut p = vec![T("function"), crate::synth::P::S(format!("{}o{}", if und { "_" } else { "" }, i)), T("("), T(")")];
+                        for t in &pre2 {
+                            p.push(T(t));
+                        }
+                        p.push(T(vis));
+                        p.push(C(block(vec![])));
+                        node("FunctionDefinition", p)
+                    }),
+                ));
+            }
+        }
+    }
+    // variable attribute order variants: constant / immutable / override before the visibility keyword
+    for vis in ["public", "private", "internal"] {
+        for pre in ["constant", "immutable", "override"] {
+            for und in [false, true] {
+                v.push((
+                    format!("var-order:{}:{}:{}", pre, vis, und),
+                    Box::new(move |i| {
+                        let mut p = vec![C(ty("uint256")), T(pre), T(vis), crate::synth::P::S(format!("{}q{}", if und { "_" } else { "" }, i))];
+                        if pre == "constant" {
+                            p.push(T("="));
+                            p.push(C(num("1")));
+                        }
+                        p.push(T(";"));
+                        node("VariableDefinition", p)
+                    }),
+                ));
             }
         }
     }
@@ -799,7 +839,10 @@ pub fn c08(tier: Tier) -> i32 {
         ("immutable", "uint256 immutable s0 ; constructor ( ) { s0 = 7 ; }".into()),
         ("address.ctor", "address s0 ; constructor ( ) { s0 = msg . sender ; }".into()),
         ("private.ctor", "bytes32 private s0 ; constructor ( bytes32 k ) { s0 = k ; }".into()),
+        ("bytes32.ctor.conversion", "bytes32 s0 ; constructor ( uint256 seed ) { s0 = bytes32 ( seed ) ; }".into()),
     ];
+    // the contract kind that holds the declaration when it is placed in a contract of its own
+    let holder_kinds: Vec<&str> = vec!["contract H {", "abstract contract H {"];
     if tier == Tier::Thorough {
         holders.extend(vec![
             ("bool.ctor.call", "bool s0 ; constructor ( ) { s0 = decide ( 1 ) ; }".into()),
@@ -818,10 +861,13 @@ pub fn c08(tier: Tier) -> i32 {
     for (hn, decl) in &holders {
         let d = toks_of(decl);
         // holder alone: the "always suggests" halves
-        let mut alone = toks_of("pragma solidity 0.8.19 ; contract H {");
-        alone.extend(d.clone());
-        alone.push("}".into());
-        items.push(l1_item(format!("holder-alone:{}", hn), &alone));
+        for hk in &holder_kinds {
+            let mut alone = toks_of("pragma solidity 0.8.19 ;");
+            alone.extend(toks_of(hk));
+            alone.extend(d.clone());
+            alone.push("}".into());
+            items.push(l1_item(format!("holder-alone:{}:{}", hn, hk), &alone));
+        }
         for (pn, toks) in &pos {
             // (1) declaration in the same contract as the write, when there is a contract C
             if let Some(v) = inject_into_c(toks, &d) {
@@ -829,7 +875,7 @@ pub fn c08(tier: Tier) -> i32 {
             }
             // (2) declaration in another contract after / before the code that writes
             let mut after = toks.clone();
-            after.extend(toks_of("contract H {"));
+            after.extend(toks_of(holder_kinds[pn.len() % holder_kinds.len()]));
             after.extend(d.clone());
             after.push("}".into());
             items.push(l1_item(format!("other-after:{}:{}", hn, pn), &after));
@@ -936,6 +982,13 @@ pub fn c08(tier: Tier) -> i32 {
                             if !vis.is_empty() {
                                 p.push(T(vis));
                             }
+                            // rotate a mutability attribute through the space
+                            match (bn.len() + tyname.len() + vis.len()) % 4 {
+                                1 => p.push(T("view")),
+                                2 => p.push(T("pure")),
+                                3 => p.push(T("payable")),
+                                _ => {}
+                            }
                             p.push(C(block(vec![body.clone()])));
                             let fd = node("FunctionDefinition", p);
                             let f = if *filelevel { file(vec![pragma(PRAGMA), fd]) } else { file(vec![pragma(PRAGMA), contract("C", vec![fd])]) };
@@ -955,6 +1008,10 @@ pub fn c08(tier: Tier) -> i32 {
         "pragma solidity 0.8.19 ; contract C { function f ( bytes memory p , bytes memory q ) external { q = p ; } }",
         "pragma solidity 0.8.19 ; contract C { function f ( bytes memory p ) external returns ( bytes memory r ) { r = p ; } }",
         "pragma solidity 0.8.19 ; contract C { function f ( bytes memory p ) public m ( p ) { } }",
+        "pragma solidity 0.8.19 ; contract C { function f ( bytes memory p , bytes memory q ) external view returns ( bytes memory ) { p = q ; return p ; } }",
+        "pragma solidity 0.8.19 ; contract C { function sort ( uint256 [ ] memory items , uint256 key ) public pure { items [ 0 ] = key ; } }",
+        "pragma solidity 0.8.19 ; contract C { function f ( bytes memory p ) external view returns ( uint256 ) { return p . length ; } }",
+        "pragma solidity 0.8.19 ; contract C { function f ( bytes memory a , bytes memory b , string memory c ) external pure { } }",
     ] {
         items3.push(l1_item(format!("param-extra:{}", t), &toks_of(t)));
     }
